@@ -339,4 +339,174 @@ theorem tie_hash_pl (sb : List (C × C)) (last : C) (arg : E C) (h : UInt64) :
   simp only [Option.bind_some, Option.map_some]
   cases hashX P arg <;> rfl
 
+/-! ## the recursion equations determine their solution (congruence of the interpreters in `rec`) -/
+
+
+/-- `x` is what an accessor of `a` returns -/
+def IsPart (a x : E C) : Prop := (∃ k, argAt a k = some x) ∨ (∃ fl, child fl a = some x)
+
+theorem opt2_congr {f g : E C → E C → R} (o : Option (E C)) (o' : Option (E C))
+    (h : ∀ x, o = some x → ∀ y, f x y = g x y) : opt2 f o o' = opt2 g o o' := by
+  cases o with
+  | none => rfl
+  | some x => cases o' with
+    | none => rfl
+    | some y => exact h x rfl y
+
+theorem evalB_congr {f g : E C → E C → R} (a b : E C) (h : ∀ x, IsPart a x → ∀ y, f x y = g x y) (i : Nat) :
+    ∀ c : BExp, evalB N f a b i c = evalB N g a b i c
+  | .tru | .neCount | .neFunc | .neD _ _ | .eqD _ _ | .otherExhausted _ | .otherCountIs _ | .neKindArg _
+  | .strcmpNeArg _ => rfl
+  | .equalArg ix => by
+    simp only [evalB]
+    exact opt2_congr _ _ (fun x hx => h x (.inl ⟨_, hx⟩))
+  | .equalChild fl => by
+    simp only [evalB]
+    exact opt2_congr _ _ (fun x hx => h x (.inr ⟨_, hx⟩))
+  | .or c d => by simp only [evalB, evalB_congr a b h i c, evalB_congr a b h i d]
+  | .and c d => by simp only [evalB, evalB_congr a b h i c, evalB_congr a b h i d]
+  | .not c => by simp only [evalB, evalB_congr a b h i c]
+
+theorem andRange_congr : ∀ (n : Nat) (u v : Nat → R), (∀ k, u k = v k) → andRange n u = andRange n v
+  | 0, _, _, _ => rfl
+  | n + 1, u, v, h => by
+    simp only [andRange, h 0]
+    congr 1
+    exact andRange_congr n _ _ (fun k => h (k + 1))
+
+mutual
+theorem semS_congr {f g : E C → E C → R} (a b : E C) (h : ∀ x, IsPart a x → ∀ y, f x y = g x y) :
+    ∀ (s : CStmt) (i : Nat), semS N f a b s i = semS N g a b s i
+  | .failIf c, i => by simp only [semS, evalB_congr N a b h i c]
+  | .ite gd t e, i => by simp only [semS, semL_congr a b h t i, semL_congr a b h e i]
+  | .forRange n body, i => by
+    simp only [semS]
+    exact andRange_congr _ _ _ (fun k => semL_congr a b h body k)
+  | .ret c, i => by simp only [semS, evalB_congr N a b h i c]
+theorem semL_congr {f g : E C → E C → R} (a b : E C) (h : ∀ x, IsPart a x → ∀ y, f x y = g x y) :
+    ∀ (l : List CStmt) (i : Nat), semL N f a b l i = semL N g a b l i
+  | [], _ => rfl
+  | s :: rest, i => by simp only [semL, semS_congr a b h s i, semL_congr a b h rest i]
+end
+
+theorem atomSem_congr {f g : E C → E C → R} (a b : E C) (h : ∀ x, IsPart a x → ∀ y, f x y = g x y) (x : CmpAtom) :
+    atomSem N f x a b = atomSem N g x a b := by
+  cases x with
+  | eqField fl => cases fl <;> cases a <;> cases b <;> rfl
+  | equalField fl =>
+    simp only [atomSem]
+    cases hc : child fl a with
+    | none => rfl
+    | some x => cases child fl b with
+      | none => rfl
+      | some y => exact h x (.inr ⟨fl, hc⟩) y
+
+theorem conjSem_congr {f g : E C → E C → R} (a b : E C) (h : ∀ x, IsPart a x → ∀ y, f x y = g x y) :
+    ∀ atoms : List CmpAtom, conjSem N f atoms a b = conjSem N g atoms a b
+  | [] => rfl
+  | [x] => by simp only [conjSem, atomSem_congr N a b h x]
+  | x :: y :: rest => by
+    simp only [conjSem, atomSem_congr N a b h x, conjSem_congr a b h (y :: rest)]
+
+theorem equalStep_congr {f g : E C → E C → R} (a b : E C) (h : ∀ x, IsPart a x → ∀ y, f x y = g x y) :
+    equalStep N equalEntry cmpBody f a b = equalStep N equalEntry cmpBody g a b := by
+  simp only [equalStep, equalEntry, visitCmp]
+  split
+  · rfl
+  · cases cmpBody b.kind with
+    | conj atoms => exact conjSem_congr N a b h atoms
+    | prog p => exact semL_congr N a b h p 0
+    | unsupported => rfl
+
+
+theorem isPart_lt (a x : E C) (h : IsPart a x) : sizeOf x < sizeOf a := by
+  cases h with
+  | inl h =>
+    obtain ⟨k, hk⟩ := h
+    cases a <;> simp only [argAt, reduceCtorEq] at hk
+    all_goals
+      have hm := List.mem_of_getElem? hk
+      have := List.sizeOf_lt_of_mem hm
+      simp only [E.call.sizeOf_spec, E.iter.sizeOf_spec]
+      omega
+  | inr h =>
+    obtain ⟨fl, hc⟩ := h
+    cases fl <;> cases a <;> simp only [child, reduceCtorEq, Option.some.injEq] at hc <;> subst hc <;>
+      simp only [E.un.sizeOf_spec, E.bin.sizeOf_spec, E.ite.sizeOf_spec, E.pl.sizeOf_spec] <;> omega
+
+
+
+
+theorem bind_congr_part {f g : E C → Option UInt64} (o : Option (E C)) (h : ∀ x, o = some x → f x = g x) :
+    o.bind f = o.bind g := by
+  cases o with
+  | none => rfl
+  | some x => exact h x rfl
+
+theorem evalHV_congr {f g : E C → Option UInt64} (a : E C) (h : ∀ x, IsPart a x → f x = g x) (i : Nat) :
+    ∀ v : HVal, evalHV P f a i v = evalHV P g a i v
+  | .dAt _ _ | .funcName | .charAt _ => rfl
+  | .argAt ix => by
+    simp only [evalHV]
+    exact bind_congr_part _ (fun x hx => h x (.inl ⟨_, hx⟩))
+  | .childArg => by
+    simp only [evalHV]
+    exact bind_congr_part _ (fun x hx => h x (.inr ⟨_, hx⟩))
+
+theorem foldRange_congr : ∀ (n : Nat) (u v : Nat → UInt64 → Option UInt64), (∀ k h, u k h = v k h) →
+    ∀ h, foldRange n u h = foldRange n v h
+  | 0, _, _, _, _ => rfl
+  | n + 1, u, v, hu, h => by
+    simp only [foldRange, hu 0 h]
+    congr 1
+    funext h'
+    exact foldRange_congr n _ _ (fun k => hu (k + 1)) h'
+
+mutual
+theorem semHS_congr {f g : E C → Option UInt64} (comb : UInt64 → UInt64 → UInt64) (a : E C)
+    (h : ∀ x, IsPart a x → f x = g x) :
+    ∀ (s : HStmt) (i : Nat) (hh : UInt64), semHS P comb f a s i hh = semHS P comb g a s i hh
+  | .combine v, i, hh => by simp only [semHS, evalHV_congr P a h i v]
+  | .forRange n body, i, hh => by
+    simp only [semHS]
+    exact foldRange_congr _ _ _ (fun k h' => semHL_congr comb a h body k h') hh
+theorem semHL_congr {f g : E C → Option UInt64} (comb : UInt64 → UInt64 → UInt64) (a : E C)
+    (h : ∀ x, IsPart a x → f x = g x) :
+    ∀ (l : List HStmt) (i : Nat) (hh : UInt64), semHL P comb f a l i hh = semHL P comb g a l i hh
+  | [], _, _ => rfl
+  | s :: rest, i, hh => by
+    simp only [semHL, semHS_congr comb a h s i hh]
+    congr 1
+    funext h'
+    exact semHL_congr comb a h rest i h'
+end
+
+theorem chainSem_congr {f g : E C → Option UInt64} (comb : UInt64 → UInt64 → UInt64) (a : E C)
+    (h : ∀ x, IsPart a x → f x = g x) :
+    ∀ (fs : List (Fld × Prim)) (hh : UInt64), chainSem P comb f hh fs a = chainSem P comb g hh fs a
+  | [], _ => by simp only [chainSem]
+  | (fl, p) :: fs, hh => by
+    cases p with
+    | expr =>
+      simp only [chainSem]
+      cases hc : child fl a with
+      | none => rfl
+      | some x =>
+        simp only [h x (.inr ⟨fl, hc⟩)]
+        cases g x with
+        | none => rfl
+        | some hx => exact chainSem_congr comb a h fs _
+    | dbl => cases fl <;> cases a <;> simp only [chainSem] <;> exact chainSem_congr comb _ h fs _
+    | int => cases fl <;> cases a <;> simp only [chainSem] <;> exact chainSem_congr comb _ h fs _
+    | bool => cases fl <;> cases a <;> simp only [chainSem] <;> exact chainSem_congr comb _ h fs _
+
+theorem hashStep_congr {f g : E C → Option UInt64} (a : E C) (h : ∀ x, IsPart a x → f x = g x) :
+    hashStep P hashEntry hashBody hashCombine hashSeed f a = hashStep P hashEntry hashBody hashCombine hashSeed g a := by
+  simp only [hashStep, hashEntry]
+  cases hashBody a.kind with
+  | chain fs => exact chainSem_congr P _ a h fs _
+  | prog p => exact semHL_congr P _ a h p 0 _
+  | unsupported => rfl
+
+
 end MpVerif.C18
